@@ -681,6 +681,7 @@ theorem encrypt_dispatch_prefix_witness :
 
 /-- The source shapes the hand-written parts of the model rely on, as regenerated facts: the
 length guards of `aeskw.Wrap`/`Unwrap` (the model's `wrap`/`unwrap` guards), the RFC 3394 IV, the
+round loops of `Wrap`/`Unwrap` statement by statement (what `wrapInner`/`unwrapInner` mirror), the
 order tag-check → CBC → unpad in `aescbcaead.Open`, the MAC input `AD ‖ IV ‖ C ‖ AL` with the
 big-endian bit length, the MAC/ENC key split, the tag split of the ChaCha helper, and the
 constants.  If the source changes any of them this theorem stops checking. -/
@@ -688,6 +689,14 @@ theorem model_assumptions_tie :
     Generated.C03.aeskwWrapGuards = ["len(cek)%8 != 0", "len(cek) < 16"] ∧
     Generated.C03.aeskwUnwrapGuards = ["len(cipherText) < 24 || len(cipherText)%8 != 0"] ∧
     Generated.C03.aeskwDefaultIV = List.replicate 8 166 ∧
+    Generated.C03.aeskwWrapRound = ["for j := 0; j <= 5; j++", "for i := 1; i <= n; i++",
+      "b := arrConcat(a, r[i-1])", "block.Encrypt(b, b)", "t := (n * j) + i", "tBytes := make([]byte, 8)",
+      "binary.BigEndian.PutUint64(tBytes, uint64(t))", "copy(a, arrXor(b[:len(b)/2], tBytes))",
+      "copy(r[i-1], b[len(b)/2:])"] ∧
+    Generated.C03.aeskwUnwrapRound = ["for j := 5; j >= 0; j--", "for i := n; i >= 1; i--",
+      "t := (n * j) + i", "tBytes := make([]byte, 8)", "binary.BigEndian.PutUint64(tBytes, uint64(t))",
+      "b := arrConcat(arrXor(a, tBytes), r[i-1])", "block.Decrypt(b, b)", "copy(a, b[:len(b)/2])",
+      "copy(r[i-1], b[len(b)/2:])"] ∧
     Generated.C03.aescbcaeadOpenOrder = ["hmac.Equal", "CryptBlocks", "padding.UnpadPKCS7"] ∧
     Generated.C03.aescbcaeadMacInput = ["additionalData", "nonce", "ciphertext", "al"] ∧
     Generated.C03.aescbcaeadAL = "binary.BigEndian.PutUint64(al, uint64(len(additionalData)<<3))" ∧
